@@ -8,13 +8,9 @@
 package main
 
 import (
-	"bytes"
 	"encoding/binary"
-	"encoding/json"
 	"fmt"
 	"net/netip"
-	"os"
-	"os/exec"
 	"time"
 
 	"github.com/uhppoted/uhppote-core/types"
@@ -257,44 +253,6 @@ func names(seq []int) []string {
 	return out
 }
 
-// conformance runs the E3 loopback replay (harness/c03/real): the same class sequences against
-// the unmodified driver on real sockets. It validates the network model; it never decides the
-// property (a divergence is recorded in the evidence, not raised as a violation).
-func conformance(r *vk.Run) {
-	bin := os.Getenv("VERIF_REAL_BIN")
-	if bin == "" {
-		return
-	}
-	cmd := exec.Command(bin)
-	var out bytes.Buffer
-	cmd.Stdout = &out
-	done := make(chan error, 1)
-	go func() { done <- cmd.Run() }()
-	select {
-	case err := <-done:
-		if err != nil {
-			r.Set("loopback_conformance", "replay binary failed: "+err.Error())
-			return
-		}
-	case <-time.After(4 * time.Minute):
-		cmd.Process.Kill()
-		r.Set("loopback_conformance", "timed out (not judged)")
-		return
-	}
-	var res struct {
-		Replayed, Agreed, Skipped int
-		Divergences               []map[string]string
-	}
-	if err := json.Unmarshal(out.Bytes(), &res); err != nil {
-		r.Set("loopback_conformance", "unreadable output")
-		return
-	}
-	r.Set("traces_validated_against_impl", res.Agreed)
-	r.Set("loopback_replays", res.Replayed)
-	r.Set("loopback_skipped_not_applicable", res.Skipped)
-	r.Set("model_divergences", res.Divergences)
-}
-
 func main() {
 	r := vk.Start("C03", "model_checking")
 	scenarios := []e1.Scenario{}
@@ -318,7 +276,7 @@ func main() {
 	}
 	e1.RunAll(r, scenarios, 0)
 	if r.Worker == "" && r.Replay == "" {
-		conformance(r)
+		e1.Conformance(r)
 	}
 	r.Rule("for each of the 31 directed operations x {broadcast, connected UDP, TCP}: every sequence of datagram classes " + fmt.Sprint(classNames[1:]) + " up to length 2 (3 / thorough 4 for GetStatus, GetCardByID, PutCard), chosen datagram by datagram by the environment; distinct = distinct (sequence, outcome-kind) labels observed")
 	r.Assume("simulated network vs/net.go models UDP/TCP delivery, deadlines and buffer truncation; its fidelity is validated on the loopback by the E3 replays where registered")
